@@ -413,6 +413,10 @@ pub fn main(twins: &'static [Twin]) {
             "C17" => has("big") || has("nest") || has("clash"),
             // nested spawn macros: inherited thread names `<caller>_join_<i>_join_<j>` (innermost branches log their thread name)
             "C08" => has("nest") && t.tags.contains("spawn"),
+            // zoo twins under the thread kinds in which every step has all (>= 2) branches active: no callback may run on
+            // the calling thread (iterator adaptors are lazy — a step made of operand-less operators runs the closures
+            // recorded in the step before, still on its own thread)
+            "C08z" => has("eqdepth") && matches!(t.kind, "join_spawn" | "try_join_spawn" | "spawn" | "try_spawn"),
             // caller variables named like `let`-named branches: every user expression keeps its call-site meaning
             "C04" | "C12" | "C13" => has("scope"),
             _ => true,
@@ -473,6 +477,12 @@ pub fn main(twins: &'static [Twin]) {
             if rv != mv {
                 msgs.push(format!("value differs: macro {:?}, reference {:?}", mv, rv));
             }
+            if prop == "C08z" {
+                let caller = log::thr();
+                if let Some(e) = ml.iter().find(|e| e.k == K::Call && e.thr == caller) {
+                    msgs.push(format!("callback {} ran on the calling thread although every step of this invocation has all {} branches active (each runs on its own thread)", e.id, t.branches.len()));
+                }
+            }
             if has("nest") && t.tags.contains("spawn") && matches!(prop.as_str(), "C17" | "C08") {
                 // the same call sites again, executed by a differently named thread: inherited thread names follow the caller
                 plan::install(t.max_id, &p);
@@ -525,7 +535,7 @@ pub fn main(twins: &'static [Twin]) {
             }
             let ncalls = ml.iter().filter(|e| e.k == K::Call).count();
             let nt = match prop.as_str() {
-                "C17" | "C19" | "C08" => true,
+                "C17" | "C19" | "C08" | "C08z" => true,
                 "C02" => ncalls >= 1,
                 "C04" | "C12" | "C13" => true,
                 "C11" => ml.iter().filter(|e| e.k == K::Cap).count() >= 1,
